@@ -1081,6 +1081,12 @@ def c08(run):
     for L in [8191, 8192, 8193, 16384, 65535, 65537] + ([1048575, 1048577, 2100000] if True else []):
         echo.append('x' * L)
         echo.append('é' * (L // 2) + 'y')
+    # multi-byte characters at EVERY alignment relative to the reader's buffer (a character straddling a chunk boundary)
+    for pad in ('', 'a', 'ab', 'abc'):
+        echo.append(pad + 'é' * 5000)
+        echo.append(pad + '日' * 3500)
+        echo.append(pad + '𝔘' * 2600)
+    echo += ['éΩ日'] * 300
     src = 'listen to X\nsay X\n' * len(echo)
     stdin = '\n'.join(echo) + '\n'
     r = common.impl([run_req(src, stdin)], stall_s=60)[0]
